@@ -3,6 +3,7 @@
 pub mod alloc;
 pub mod case;
 pub mod checks;
+pub mod crash;
 pub mod engine;
 pub mod gen;
 pub mod heap;
